@@ -736,6 +736,22 @@ func (v *MaryTransactionOutputValue) UnmarshalCBOR(data []byte) error {
 		return err
 	}
 	*v = MaryTransactionOutputValue(tmp)
+	// Output quantities are unsigned 64-bit values in the ledger; unlike
+	// mint, an output can neither be negative nor exceed 2^64-1
+	if v.Assets != nil {
+		for _, policyId := range v.Assets.Policies() {
+			for _, assetName := range v.Assets.Assets(policyId) {
+				amount := v.Assets.Asset(policyId, assetName)
+				if amount != nil &&
+					(amount.Sign() < 0 || amount.BitLen() > 64) {
+					return fmt.Errorf(
+						"output asset quantity out of range: %s",
+						amount.String(),
+					)
+				}
+			}
+		}
+	}
 	return nil
 }
 
